@@ -749,7 +749,12 @@ impl CliOptions for GetOptsOptions {
             config.set_cli().print_misformatted_file_names(true);
         }
 
-        for (key, val) in self.inline_config {
+        // The iteration order of a `HashMap` differs from one process to the next, and the
+        // order matters: a width given explicitly is clamped to the `max_width` in force when
+        // it is applied.  Apply the pairs in a fixed order, `max_width` first.
+        let mut inline_config: Vec<(String, String)> = self.inline_config.into_iter().collect();
+        inline_config.sort_by_key(|(key, _)| (key != "max_width", key.clone()));
+        for (key, val) in inline_config {
             config.override_value(&key, &val);
         }
     }
